@@ -3,10 +3,17 @@ import os, sys, subprocess, hashlib, json, time
 
 ROOT = os.path.dirname(os.path.dirname(os.path.abspath(__file__)))
 REPO = os.environ.get("VERIF_REPO", "/repo")
-BUILD = os.path.join(ROOT, "build")
-WORK = os.path.join(ROOT, "work")          # scratch for scripts/traces of the current run (git-ignored)
-REPLAYS = os.path.join(ROOT, "replays")
-EVIDENCE = os.path.join(ROOT, "evidence")
+if REPO == "/repo":
+    _OUT = ROOT
+else:
+    # checks run against a scratch copy (mutation self-tests): keep builds, traces and evidence
+    # away from the real ones
+    _OUT = os.path.join("/tmp", "verif-alt-" + hashlib.sha1(REPO.encode()).hexdigest()[:10])
+    os.makedirs(_OUT, exist_ok=True)
+BUILD = os.path.join(_OUT, "build")
+WORK = os.path.join(_OUT, "work")          # scratch for scripts/traces of the current run (git-ignored)
+REPLAYS = os.path.join(_OUT, "replays")
+EVIDENCE = os.path.join(_OUT, "evidence")
 SPEC = os.path.join(ROOT, "spec")
 NCPU = os.cpu_count() or 4
 
